@@ -25,7 +25,12 @@ allvars == <<bufs, holds, vars, hist>>
 
 CatIdx == 1..Len(Cat)
 TypeOf(i) == Bake(Cat[i].T, "")
-SysCfg(i) == IF Cat[i].cfg = "pa" THEN [Cfg0 EXCEPT !.protoArrays = TRUE] ELSE Cfg0
+\* the configuration of the instance an item is used with: options and registrations (C17); "pkg" = the package-level
+\* functions, which must behave like a default-configured instance
+CfgN(n) ==
+  [Cfg0 EXCEPT !.protoArrays = (n \in {"pa", "both"}), !.protoTime = (n \in {"pt", "both", "mkboth"}),
+               !.marker = (CASE n = "mk" -> "plain" [] n = "mktag" -> "tagged" [] n = "mkboth" -> "both" [] OTHER -> "none")]
+SysCfg(i) == CfgN(Cat[i].cfg)
 Enc(i, k) == Encode(SysCfg(i), TypeOf(i), Cat[i].vals[k])
 Prefixes == {<<>>, <<1>>, <<1, 2, 3>>}
 Spares == {0, 1, 64}
@@ -48,7 +53,7 @@ StepBufs(bf, s) ==
     [] OTHER -> bf                                                                    \* unmarshal, fresh
 \* variables after the call s
 StepVars(bf, vs, s) ==
-  CASE s.act = "unmarshal" -> [vs EXCEPT ![s.i] = Decode(SysCfg(s.i), TypeOf(s.i), bf[s.b], vs[s.i]).v]
+  CASE s.act = "unmarshal" -> (LET d == Decode(SysCfg(s.i), TypeOf(s.i), bf[s.b], vs[s.i]) IN IF d.ok THEN [vs EXCEPT ![s.i] = d.v] ELSE vs)
     [] s.act = "fresh"     -> [vs EXCEPT ![s.i] = Zero(TypeOf(s.i))]
     [] OTHER -> vs
 StepHolds(bf, hd, s) ==
